@@ -14,7 +14,7 @@ def usizeMax : Nat := 18446744073709551615
 def State.init (id : Id) (pol : Policy) (cfg : Config) : State :=
   { id := id, policy := pol, inc := 0, cfg := cfg, conn := .disconnected, token := 0,
     ms := [], cursor := .at 0, numActive := 0, probe := {}, updates := [], custom := [],
-    hst := [], sendCap := cfg.mps }
+    hst := [], sendCap := cfg.mps, epoch := 0 }
 
 /-! ### probe.rs -/
 
@@ -191,18 +191,18 @@ def announceToDown (num : Nat) : M Unit := do
 
 /-- `Foca::reset` -/
 def reset : M Unit :=
-  modS fun s => { s with conn := .disconnected, inc := 0, token := wrapAdd8 s.token, probe := s.probe.clear }
+  modS fun s => { s with conn := .disconnected, inc := 0, token := wrapAdd8 s.token, probe := s.probe.clear, epoch := s.epoch + 1 }
 
 /-- `Foca::become_disconnected` -/
 def becomeDisconnected : M Unit := do
   let s ← getS
   if E.debug && s.numActive != 0 then panicAt .disconnectedMembers else
-  modS fun s => { s with conn := .disconnected, token := wrapAdd8 s.token, probe := s.probe.clear }
+  modS fun s => { s with conn := .disconnected, token := wrapAdd8 s.token, probe := s.probe.clear, epoch := s.epoch + 1 }
   emit (.notify .idle)
 
 /-- `Foca::become_undead` -/
 def becomeUndead : M Unit := do
-  modS fun s => { s with conn := .undead, probe := s.probe.clear, token := wrapAdd8 s.token }
+  modS fun s => { s with conn := .undead, probe := s.probe.clear, token := wrapAdd8 s.token, epoch := s.epoch + 1 }
   emit (.notify .defunct)
 
 /-- `Foca::become_connected` -/
